@@ -2486,7 +2486,16 @@ func (s *sq) selectStmt(x *ast.SelectStmt, rest []ast.Stmt, defers []string) str
 			}
 			sig = append(sig, "(rec_ : "+rt+"§RESULT)")
 			call += " §REC§"
-			recStr = "(" + loop.name + " E fuel)"
+			// eta-expanded (a bare partial application of the function being defined makes the equation lemmas of the
+			// structural recursion fail an independent kernel replay)
+			vars := ""
+			if s.usesW {
+				vars += " w"
+			}
+			for _, o := range loop.params {
+				vars += " " + s.names[o]
+			}
+			recStr = "(fun" + vars + " => " + loop.name + " E fuel" + vars + ")"
 		}
 		if s.usesW {
 			sig = append(sig, "(w : §World)")
